@@ -426,6 +426,53 @@ for (nm, loc, fn, d) in [("rt.notify_finalize", r"void runtime::notify_finalize\
     UNITS.append(Unit(nm, "runtime.c", defines=[d], enforce=fn, lifts={"body": Lift(RTCPP, loc, rules=RT_RULES)},
                       loop_contracts=(d == "U_WAIT_FINALIZE"),
                       funcs=[RTCPP + ": pika::runtime::" + loc.split("::")[1].split("\\")[0]], min_obligations=5))
+# ---- runtime::start / run_helper (added by main after seeded change C05-3 was missed) ----------------------------------------------
+RS_ENUM = Sub(r"pika::runtime_state::(\w+)", r"RS_\1", None)
+LOOP_START_YW = ("__CPROVER_assigns(self->state_, g_last_state_read, g_yields)\n"
+                 "__CPROVER_loop_invariant(g_registered && g_yields >= 0 && g_yields <= 2)")
+UNITS.append(Unit("rt.start", "runtime2.c", defines=["U_START"], enforce="rt_start", lifts={
+    "starting": Lift(RTCPP, r"void runtime::starting\(\)", rules=[RS_ENUM, Sub(r"\bstate_\.store\(([^;]*)\);", r"atomic_store_state(self, \1);", None)]),
+    "start": Lift(RTCPP, r"int runtime::start\(\s*pika::util::detail::function<pika_main_function_type> const& func, bool blocking\)", rules=[
+        RS_ENUM,
+        Call(r"\binit_tss_helper", "init_tss_helper()", None),
+        Sub(r"\bthread_manager_->run\(\);", "tm_run();", None),
+        Call(r"pika::threads::detail::thread_init_data\s+(\w+)", "struct init_data {h1} = init_data_make({0})", None),
+        Call(r"pika::util::detail::bind", "bind_make({0}, {1}, {2}, {3}, {4})", None),
+        Sub(r"&runtime::(\w+)", r"FN_\1", None),
+        Sub(r"(?:this->)?(?:runtime::)?(?<![\w.>])starting\(\)", "rt_starting(self)", None),
+        Sub(r"\bthis\b", "self", None),
+        Sub(r"std::ref\(([^()]+)\)", r"&(\1)", None),
+        Sub(r"pika::threads::detail::thread_id_ref_type (\w+) = pika::threads::detail::invalid_thread_id;", r"long \1 = VX_INVALID_ID;", None),
+        Sub(r"\bthread_manager_->register_thread\((\w+), (\w+)\);", r"tm_register_thread(&\1, &\2);", None),
+        Sub(r"(?<![\w.>:])wait\(\)", "rt_wait(self)", None),
+        YieldWhile(None),
+        Sub(r"(?<![\w.>:])get_state\(\)", "rt_get_state(self)", None),
+        Sub(r"\bstate_\.store\(([^;]*)\);", r"atomic_store_state(self, \1);", None),
+        Members(["result_"], optional=["result_"]),
+    ], loops={1: LOOP_START_YW, "count": 1})},
+    funcs=[RTCPP + ": pika::runtime::start(func, blocking)", RTCPP + ": pika::runtime::starting"], min_obligations=10))
+UNITS.append(Unit("rt.run_helper", "runtime2.c", defines=["U_RUN_HELPER"], enforce="run_helper", lifts={
+    "run_helper": Lift(RTCPP, r"pika::threads::detail::thread_result_type runtime::run_helper\(", rules=[
+        RS_ENUM,
+        Sub(r"pika::program_options::options_description \w+;", "", None),
+        Sub(r"(\w+) = pika::detail::handle_late_commandline_options\([^;]*\);", r"\1 = handle_late_commandline_options(); if (g_threw) VX_THROW_NOW;", None),
+        Call(r"(?<![\w.>:])call_startup_functions(?!\s*\(\s*self\b)", "call_startup_functions(self, {0}); if (g_threw) VX_THROW_NOW", None),
+        Call(r"(?<![\w.>:])set_state(?!\s*\(\s*self\b)", "set_state(self, {0})", None),
+        Sub(r"(?<![\w.>:])finalize\(\);", "rt_finalize(self);", None),
+        Call(r"pika::threads::detail::thread_result_type(?=\s*\()", "result_make({0}, {1})", None),
+        Sub(r"pika::threads::detail::thread_schedule_state::(\w+)", r"TSS_\1", None),
+        Sub(r"pika::threads::detail::invalid_thread_id", "VX_INVALID_ID", None),
+        DropStmt(r"pika::threads::detail::set_thread_description", None),
+        Sub(r"(\w+) = func\(\);", r"{ int vx_t = func_call(func); if (g_threw) VX_THROW_NOW; \1 = vx_t; }", None),
+        Sub(r"(?<![\w.>*])result\b", "(*result)", None),
+        Guard(r"std::lock_guard<std::mutex> (\w+)\(mtx_\);", "lg_lock(&self->mtx_);", "lg_unlock(&self->mtx_);", None),
+        Sub(r"\bexception_ = std::current_exception\(\);", "exc_store(self, exc_current());", None),
+        Sub(r"\bdetail::report_exception_and_continue\b", "report_exception_and_continue", None),
+        Call(r"(?<![\w.>:])report_error(?!\s*\(\s*self\b)", "rt_report_error(self, {0}, {1})", None),
+        TryCatch(None),
+        Members(["exception_"], optional=["exception_"]),
+    ])},
+    funcs=[RTCPP + ": pika::runtime::run_helper"], min_obligations=10))
 STATIC = list(globals().get("STATIC", [])) + [
     _census.enum("runtime_state", "libs/pika/threading_base/include/pika/threading_base/scheduler_state.hpp", "runtime_state",
                  {"invalid": -1, "initialized": 0, "running": 5, "suspended": 6, "pre_sleep": 7, "sleeping": 8, "stopping": 11, "terminating": 12, "stopped": 13}),
